@@ -1,6 +1,7 @@
 import PhpVerif.Model.Pool
 import PhpVerif.Model.Version
 import PhpVerif.Gen.VersionFacts
+import PhpVerif.Model.NewLines
 /-
 Line-protocol driver: runs the executable model definitions on the operations the Go harness
 also runs on the real code.  One request per line, one answer per line.  Core only (no Mathlib)
@@ -27,6 +28,12 @@ def cellTrace (rs : List (Option Cell)) : String :=
     | some c => s!"{c.1}:{c.2};"))
 
 def cmpStr (i : Int) : String := toString i
+
+def parseNats (s : String) : List Nat :=
+  if s == "-" then [] else (s.splitOn ",").filterMap (·.toNat?)
+
+def natsStr (l : List Nat) : String :=
+  if l.isEmpty then "-" else ",".intercalate (l.map toString)
 
 def handle (ws : List String) : String :=
   match ws with
@@ -59,6 +66,19 @@ def handle (ws : List String) : String :=
     match a.toNat?, b.toNat? with
     | some a, some b => toString ((Version.mk a b).greaterOrEqual ⟨7, 3⟩)
     | _, _ => "bad-op"
+  | ["nlappend", ds, p] =>
+    match p.toNat? with
+    | some p => natsStr (NL.append (parseNats ds) p)
+    | none => "bad-op"
+  | ["nlgetline", ds, p] =>
+    match p.toNat? with
+    | some p => toString (NL.getLine (parseNats ds) p)
+    | none => "bad-op"
+  | ["nlstarts", h, m] =>
+    match m.toNat? with
+    | some m => natsStr (NL.lineStarts (unhex h) m)
+    | none => "bad-op"
+  | ["nlscan", h, ps] => natsStr (NL.scan (unhex h) (parseNats ps))
   | _ => "bad-op"
 
 partial def loop (h : IO.FS.Stream) (out : IO.FS.Stream) : IO Unit := do
